@@ -72,6 +72,18 @@ C.update({
 })
 C["C11"]["text"]+=" Concurrent part (second command, evidence/C11c.json, hook H5 + E1): every schedule with <= 2 preemptions of 2-3 threads doing add_cas_block / add_file_reconstruction_info / flush / query on one real ShardFileManager with a tiny shard target; after the final flush every record whose add returned Ok must be in a shard file of the session."
 
+C.update({
+ "C04":dict(lab="lab_chunker",cat="exploration",tech="bounded exhaustive enumeration of streams x call partitions x API mixes against the reference gear rule",
+   text="50 (quick) / 2608 (thorough) streams per target (constant, periodic, ramps, adversarial forced-cut / first-hashed-byte, LCG, each embedded at 3 offsets) for targets {128,1024,65536} / all powers of two 128..65536; every 2-partition (all cut positions up to 12 kB, windows + stride above), fixed steps 1..64 and max-1,max,max+1, boundary-adjacent 3-partitions, empty calls in every slot, next/next_block/finish mixes: concatenation, identical chunk lists across partitions, boundaries = reference rule, size bounds, suffix locality.",
+   note="Trusted: reference gear rule in refmodel.rs (table constant from the gearhash crate), blake3. Streams up to 6 maximum chunks.", ref="4/C04"),
+ "C06":dict(lab="lab_hash",cat="exploration",tech="bounded exhaustive enumeration of chunk lists (every fan-out pattern up to length 14/16), edits, text forms and write partitions against an independent implementation",
+   text="Every cut/no-cut class pattern of length <= 14 (quick) / 16 (thorough) realised with real chunk bytes: cas_node_hash = reference = seekable validator = streaming validator; file and range hashes under 3 salts/keys; every single edit changes the aggregate; 625 structured values and 842 malformed texts for hex/base64; HashedWrite = one-shot for all partitions of strings <= 12 bytes, every 2-partition of 7 longer lengths and every sequence of <= 3 writes over 13 threshold sizes (1..65537).",
+   note="Trusted: reference merkle aggregation / encoders in refmodel.rs, blake3. Collision resistance itself is assumed.", ref="4/C06"),
+ "C17":dict(lab="lab_reconstruct",cat="model_checking",tech="exhaustive enumeration of plans x byte ranges x writer modes x cache modes with every completion order of the gated HTTP responses (in-process responder), against reference slices",
+   text="Synthetic xorbs with distinct chunk sizes and position-dependent bytes served by an in-process HTTP responder with Range support and response gates: all term lists <= 2 (quick) / strata of <= 3 (thorough) incl. repeated xorbs and fetch ranges larger than / shared between terms, every boundary-adjacent (quick) / every (thorough strata) byte range, both writers, NUM_CONCURRENT_RANGE_GETS 1 and 16, cache off / cold / warm / fresh client on warm directory, every permutation of response release: output bytes = reference slice, reported length = bytes written, writers and cache modes agree.",
+   note="Trusted: the lab's server-side planner and responder (self-tested with two sabotage modes), tiny_http. Assumes distinct fetch ranges have distinct URLs. Interleavings finer than HTTP-response order and cache eviction are not explored.", ref="4/C17"),
+})
+
 checks=[]
 for p in props:
     if p in C:
@@ -86,7 +98,7 @@ m={"version":1,"setup_cmd":"./check --setup",
  "hooks":{"guard":"cargo feature `verif` (on utils, chunk_cache, cas_client, data; new inert crate verif_hooks)",
   "enable":"the harness crates under /verif/harness are cargo path-dependents of /repo/<crate> with features=[\"verif\"]; every ./check run does an incremental cargo build --offline first",
   "baseline_off_cmd":"cd /repo && cargo nextest run --workspace --no-fail-fast --offline",
-  "source_commits":["f198c7b","5a597fe","61cee61","49b5b9d","fbaea1e","06d5c26","10e9a05"],"add_only":True},
+  "source_commits":["f198c7b","5a597fe","61cee61","49b5b9d","fbaea1e","06d5c26","10e9a05","cabe0fc"],"add_only":True},
  "engines":[
   {"name":"E1 vsched","path":"harness/vcore/src/sched.rs","serves_properties":["C12","C13","C20","C16"],"kind_free_text":"cooperative scheduler over real OS threads + stateless preemption-bounded DFS, replay-checked"},
   {"name":"E2 vfs","path":"harness/vcore/src/vfs.rs","serves_properties":["C12","C13","C18","C19"],"kind_free_text":"libc symbol interposition: FS switch points, crash snapshots, fake clock"},
